@@ -1,6 +1,9 @@
 /-
 Props/C14.lean — returned fields obey the integral laws of magnetostatics.
-Proved: the interface conditions of the Sphere solution (normal B and tangential H continuous
+Proved: the LOCAL (differential) forms of both laws for the Dipole kernel and for the Sphere:
+div B = 0 and curl H = 0 at every point off the dipole position, resp. off the sphere surface
+(all partial derivatives as `HasDerivAt` of one-variable sections of the model functions);
+the interface conditions of the Sphere solution (normal B and tangential H continuous
 across |x| = R), which together with B_in − μ₀H_in = J (C02) are what make the flux and
 circulation laws hold for surfaces/loops that cut the boundary.
 /- FULL: zero flux of B through every closed surface and circulation of H = linked current for
@@ -9,6 +12,8 @@ circulation laws hold for surfaces/loops that cut the boundary.
    1e-2…1e2 of the source, in free space, inside magnets and cutting their boundary. -/
 -/
 import MagpyVerif.Lemmas.KernReal
+import MagpyVerif.Lemmas.DipoleCalc
+import MagpyVerif.Props.C13
 namespace MagpyVerif.C14
 open MagpyVerif MagpyVerif.Kern
 
@@ -36,5 +41,163 @@ theorem sphere_inside_B_minus_mu0H (d : ℝ) (pol x : V3 ℝ) (hin : ¬ |d| / 2 
   simp only [bhjmSphere, lt_real, abs_real, n, ofNat_real, Nat.cast_ofNat, hin, decide_false, if_false,
     Bool.false_eq_true, mu0_real]
   apply V3.ext' <;> simp [vs, vd] <;> field_simp <;> ring
+
+/-! ### local forms of the two laws: Dipole -/
+
+/-- C14 (Dipole, local form of the flux law).  At every point (x,y,z) other than the dipole
+position the three partial derivatives ∂Hx/∂x, ∂Hy/∂y, ∂Hz/∂z of `dipole_Hfield` exist and add
+up to zero: div H = 0, hence div B = μ₀ div H = 0 (`dipole_B_div_free`).  By Gauss's theorem this
+is what makes the flux of B through any closed surface not containing the dipole vanish. -/
+theorem dipole_div_free (m : V3 ℝ) (x y z : ℝ) (hx : (⟨x, y, z⟩ : V3 ℝ) ≠ ⟨0, 0, 0⟩) :
+    ∃ dxx dyy dzz : ℝ,
+      HasDerivAt (fun t => (dipoleH m ⟨t, y, z⟩).x) dxx x ∧
+      HasDerivAt (fun t => (dipoleH m ⟨x, t, z⟩).y) dyy y ∧
+      HasDerivAt (fun t => (dipoleH m ⟨x, y, t⟩).z) dzz z ∧
+      dxx + dyy + dzz = 0 :=
+  (dipoleH_hasPartials m ⟨x, y, z⟩ (norm_ne_zero_of_ne hx)).divFreeAt
+    (dipoleJac_div m _ (norm_ne_zero_of_ne hx))
+
+/-- the same statement with Mathlib's `deriv`: the divergence of `dipole_Hfield`, written as the sum
+of the derivatives of its three coordinate sections, is 0 off the dipole position -/
+theorem dipole_div_free_deriv (m : V3 ℝ) (x y z : ℝ) (hx : (⟨x, y, z⟩ : V3 ℝ) ≠ ⟨0, 0, 0⟩) :
+    deriv (fun t => (dipoleH m ⟨t, y, z⟩).x) x + deriv (fun t => (dipoleH m ⟨x, t, z⟩).y) y
+      + deriv (fun t => (dipoleH m ⟨x, y, t⟩).z) z = 0 := by
+  obtain ⟨a, b, c, ha, hb, hc, h⟩ := dipole_div_free m x y z hx
+  rw [ha.deriv, hb.deriv, hc.deriv]
+  exact h
+
+/-- non-vacuity: the point (0,0,1) is off the dipole, the field of the moment (0,0,1) is not zero
+there, and the single partial ∂Hz/∂z is not zero (so the vanishing of the sum is not trivial) -/
+example : ∃ dxx dyy dzz : ℝ,
+    HasDerivAt (fun t => (dipoleH ⟨0, 0, 1⟩ (⟨t, 0, 1⟩ : V3 ℝ)).x) dxx 0 ∧
+    HasDerivAt (fun t => (dipoleH ⟨0, 0, 1⟩ (⟨0, t, 1⟩ : V3 ℝ)).y) dyy 0 ∧
+    HasDerivAt (fun t => (dipoleH ⟨0, 0, 1⟩ (⟨0, 0, t⟩ : V3 ℝ)).z) dzz 1 ∧
+    dxx + dyy + dzz = 0 := dipole_div_free ⟨0, 0, 1⟩ 0 0 1 (by simp)
+example : (dipoleH ⟨0, 0, 1⟩ (⟨0, 0, 1⟩ : V3 ℝ)).z = 1 / (2 * Real.pi) := by
+  have h := norm_axis_z 1 zero_le_one
+  simp only [dipoleH, vs, vd, n, ofNat_real, pi_real, V3.dot, V3.sub_z, Nat.cast_ofNat, h]
+  field_simp; ring
+example : (dipoleJac ⟨0, 0, 1⟩ (⟨0, 0, 1⟩ : V3 ℝ)).r3.z = -6 / (4 * Real.pi) := by
+  have h := norm_axis_z 1 zero_le_one
+  simp only [dipoleJac, dipoleJ, V3.dot, h]
+  ring
+
+/-- C14 (Dipole, local form of Ampère's law without currents).  At every point other than the
+dipole position the six mixed partial derivatives of `dipole_Hfield` exist and the three
+components of curl H vanish: ∂Hz/∂y − ∂Hy/∂z = 0, ∂Hx/∂z − ∂Hz/∂x = 0, ∂Hy/∂x − ∂Hx/∂y = 0.
+By Stokes's theorem this is what makes the circulation of H around any loop that bounds a
+surface avoiding the dipole vanish. -/
+theorem dipole_curl_free (m : V3 ℝ) (x y z : ℝ) (hx : (⟨x, y, z⟩ : V3 ℝ) ≠ ⟨0, 0, 0⟩) :
+    ∃ dzy dyz dxz dzx dyx dxy : ℝ,
+      HasDerivAt (fun t => (dipoleH m ⟨x, t, z⟩).z) dzy y ∧
+      HasDerivAt (fun t => (dipoleH m ⟨x, y, t⟩).y) dyz z ∧
+      HasDerivAt (fun t => (dipoleH m ⟨x, y, t⟩).x) dxz z ∧
+      HasDerivAt (fun t => (dipoleH m ⟨t, y, z⟩).z) dzx x ∧
+      HasDerivAt (fun t => (dipoleH m ⟨t, y, z⟩).y) dyx x ∧
+      HasDerivAt (fun t => (dipoleH m ⟨x, t, z⟩).x) dxy y ∧
+      dzy - dyz = 0 ∧ dxz - dzx = 0 ∧ dyx - dxy = 0 :=
+  (dipoleH_hasPartials m ⟨x, y, z⟩ (norm_ne_zero_of_ne hx)).curlFreeAt (dipoleJac_curl m _)
+
+/-- non-vacuity: at (1,0,1) the mixed partial ∂Hx/∂z of the moment (0,0,1) is not zero -/
+example : CurlFreeAt (dipoleH ⟨0, 0, 1⟩) ⟨1, 0, 1⟩ := dipole_curl_free ⟨0, 0, 1⟩ 1 0 1 (by simp)
+example : (dipoleJac ⟨0, 0, 1⟩ (⟨1, 0, 1⟩ : V3 ℝ)).r1.z ≠ 0 := by
+  have h2 : Kern.norm (⟨1, 0, 1⟩ : V3 ℝ) * Kern.norm (⟨1, 0, 1⟩ : V3 ℝ) = 2 := by
+    rw [norm_sq]; norm_num
+  have hr : 0 < Kern.norm (⟨1, 0, 1⟩ : V3 ℝ) := norm_pos_of_ne (by simp)
+  simp only [dipoleJac, dipoleJ, V3.dot]
+  generalize Kern.norm (⟨1, 0, 1⟩ : V3 ℝ) = r at *
+  have hπ : Real.pi ≠ 0 := Real.pi_ne_zero
+  have hr0 : r ≠ 0 := hr.ne'
+  have h7 : r ^ 7 = r ^ 5 * 2 := by rw [← h2]; ring
+  rw [h7]
+  field_simp
+  norm_num
+  exact hr0
+
+/-- the same two laws for what `BHJM_dipole` returns: div B = 0 for `field="B"` (B = μ₀H) and
+curl H = 0 for `field="H"`, at every point off the dipole position -/
+theorem dipole_wrapper_div_curl_free (m p : V3 ℝ) (hp : p ≠ ⟨0, 0, 0⟩) :
+    DivFreeAt (bhjmDipole .B m) p ∧ CurlFreeAt (bhjmDipole .H m) p := by
+  have h0 := norm_ne_zero_of_ne hp
+  have h := dipoleH_hasPartials m p h0
+  refine ⟨(h.const_smul mu0R).divFreeAt ?_, h.curlFreeAt (dipoleJac_curl m p)⟩
+  rw [jacDiv_scale, dipoleJac_div m p h0, mul_zero]
+
+example : DivFreeAt (bhjmDipole .B ⟨0, 0, 1⟩) ⟨1, 2, 2⟩ ∧ CurlFreeAt (bhjmDipole .H ⟨0, 0, 1⟩) ⟨1, 2, 2⟩ :=
+  dipole_wrapper_div_curl_free _ _ (by simp)
+
+/-! ### local forms of the two laws: Sphere -/
+
+/-- outside the ball the B-field of `BHJM_magnet_sphere` is μ₀ times the dipole H-field of the
+moment J·V/μ₀ (companion of `C13.sphere_outside_eq_dipole`, which is the statement for H) -/
+theorem sphere_outside_B_eq_mu0_dipole (d : ℝ) (pol x : V3 ℝ) (hout : |d| / 2 < Kern.norm x) :
+    bhjmSphere .B d pol x =
+      vs mu0R (dipoleH (vs (4 / 3 * Real.pi * (|d| / 2) ^ 3 / mu0R) pol) x) := by
+  rw [← C13.sphere_outside_eq_dipole d pol x hout]
+  have hmu : mu0R ≠ 0 := mu0R_pos.ne'
+  simp only [bhjmSphere, lt_real, abs_real, n, ofNat_real, Nat.cast_ofNat, hout, decide_true, if_true, mu0_real]
+  apply V3.ext' <;> simp [vs, vd] <;> field_simp
+
+/-- C14 (Sphere, outside, |x| > |d|/2): div B = 0 and curl H = 0 (and also div H = 0, curl B = 0,
+there being neither polarization nor current outside).  The inside/outside test of the code is
+constant on the open set |x| > |d|/2, so near the point the field is the dipole field. -/
+theorem sphere_outside_div_curl_free (d : ℝ) (pol p : V3 ℝ) (hout : |d| / 2 < Kern.norm p) :
+    DivFreeAt (bhjmSphere .B d pol) p ∧ CurlFreeAt (bhjmSphere .H d pol) p ∧
+    DivFreeAt (bhjmSphere .H d pol) p ∧ CurlFreeAt (bhjmSphere .B d pol) p := by
+  have h0 : Kern.norm p ≠ 0 := (lt_of_le_of_lt (by positivity) hout).ne'
+  have h := dipoleH_hasPartials (vs (4 / 3 * Real.pi * (|d| / 2) ^ 3 / mu0R) pol) p h0
+  have hH : HasPartials (bhjmSphere .H d pol) p _ :=
+    h.congr_on_norm_gt hout (fun q hq => C13.sphere_outside_eq_dipole d pol q hq)
+  have hB : HasPartials (bhjmSphere .B d pol) p _ :=
+    (h.const_smul mu0R).congr_on_norm_gt hout (fun q hq => sphere_outside_B_eq_mu0_dipole d pol q hq)
+  refine ⟨hB.divFreeAt ?_, hH.curlFreeAt (dipoleJac_curl _ p), hH.divFreeAt (dipoleJac_div _ p h0),
+    hB.curlFreeAt ?_⟩
+  · rw [jacDiv_scale, dipoleJac_div _ p h0, mul_zero]
+  · rw [jacCurl_scale, dipoleJac_curl]; simp [vs]
+
+/-- non-vacuity: diameter 2, polarization (0,0,1), observer (0,0,2) is outside (2 > 1) -/
+example : DivFreeAt (bhjmSphere .B 2 ⟨0, 0, 1⟩) ⟨0, 0, 2⟩ ∧ CurlFreeAt (bhjmSphere .H 2 ⟨0, 0, 1⟩) ⟨0, 0, 2⟩ := by
+  have h := sphere_outside_div_curl_free 2 ⟨0, 0, 1⟩ ⟨0, 0, 2⟩
+    (by rw [norm_axis_z 2 (by norm_num)]; norm_num)
+  exact ⟨h.1, h.2.1⟩
+
+/-- strictly inside the ball every field `BHJM_magnet_sphere` returns is constant -/
+theorem sphere_inside_const (f : Field) (d : ℝ) (pol q q' : V3 ℝ)
+    (hq : Kern.norm q < |d| / 2) (hq' : Kern.norm q' < |d| / 2) :
+    bhjmSphere f d pol q = bhjmSphere f d pol q' := by
+  have h1 : ¬ |d| / 2 < Kern.norm q := not_lt.mpr hq.le
+  have h2 : ¬ |d| / 2 < Kern.norm q' := not_lt.mpr hq'.le
+  cases f <;>
+    simp only [bhjmSphere, lt_real, abs_real, n, ofNat_real, Nat.cast_ofNat, h1, h2, decide_false,
+      Bool.false_eq_true, if_false]
+
+/-- C14 (Sphere, strictly inside, |x| < |d|/2): every partial derivative of every returned field
+is 0 (the inside/outside test is constant on the open ball, and the inside fields are constant) -/
+theorem sphere_inside_partials_zero (f : Field) (d : ℝ) (pol p : V3 ℝ) (hin : Kern.norm p < |d| / 2) :
+    HasPartials (bhjmSphere f d pol) p jacZero :=
+  (HasPartials.const (bhjmSphere f d pol p) p).congr_on_norm_lt hin
+    (fun q hq => sphere_inside_const f d pol q p hq hin)
+
+/-- C14 (Sphere, strictly inside): div B = 0 (flux law inside the magnet) and curl H = 0
+(no free currents), and likewise div H = 0, curl B = 0 for the homogeneous inside field -/
+theorem sphere_inside_div_curl_free (d : ℝ) (pol p : V3 ℝ) (hin : Kern.norm p < |d| / 2) :
+    DivFreeAt (bhjmSphere .B d pol) p ∧ CurlFreeAt (bhjmSphere .H d pol) p ∧
+    DivFreeAt (bhjmSphere .H d pol) p ∧ CurlFreeAt (bhjmSphere .B d pol) p :=
+  ⟨(sphere_inside_partials_zero .B d pol p hin).divFreeAt jacDiv_zero,
+   (sphere_inside_partials_zero .H d pol p hin).curlFreeAt jacCurl_zero,
+   (sphere_inside_partials_zero .H d pol p hin).divFreeAt jacDiv_zero,
+   (sphere_inside_partials_zero .B d pol p hin).curlFreeAt jacCurl_zero⟩
+
+/-- non-vacuity: diameter 2, observer (0,0,1/2) is strictly inside; the field there is ⅔J ≠ 0 -/
+example : DivFreeAt (bhjmSphere .B 2 ⟨0, 0, 1⟩) ⟨0, 0, 1 / 2⟩ ∧ CurlFreeAt (bhjmSphere .H 2 ⟨0, 0, 1⟩) ⟨0, 0, 1 / 2⟩ := by
+  have h := sphere_inside_div_curl_free 2 ⟨0, 0, 1⟩ ⟨0, 0, 1 / 2⟩
+    (by rw [norm_axis_z (1 / 2) (by norm_num)]; norm_num)
+  exact ⟨h.1, h.2.1⟩
+example : (bhjmSphere .B 2 ⟨0, 0, 1⟩ (⟨0, 0, 1 / 2⟩ : V3 ℝ)).z = 2 / 3 := by
+  have h : ¬ |(2 : ℝ)| / 2 < Kern.norm (⟨0, 0, 1 / 2⟩ : V3 ℝ) := by
+    rw [norm_axis_z (1 / 2) (by norm_num)]; norm_num
+  simp only [bhjmSphere, lt_real, abs_real, n, ofNat_real, Nat.cast_ofNat, h, decide_false,
+    Bool.false_eq_true, if_false, vs]
+  norm_num
 
 end MagpyVerif.C14
